@@ -382,10 +382,14 @@ LEVEL_TEXT = ("Proved in Lean 4: for all integers i0, i1 and every nth >= 1 the 
               "flag_first_unsafe is the code before 8766189). That the source has the barrier, that g++ -O3 keeps every context read "
               "before it IN THE TWO PROBE INSTANTIATIONS the translator compiles (a lambda thread with five captures, a parallel_for "
               "body), and the statement order in Thread::begin are regenerated obligations (handover_fenced_in_source, "
-              "handover_fenced_at_O3, thread_end_order).")
-LEVEL_NOTE = ("No model, K only (the driver answers the constant ran=1/fin=1 or `ok`): Thread copies and assignment and the shared, "
-              "reference-counted State_ behind them (kinds cpy, cpd, cpj, sst, reap at free-running schedules; the End model counts only "
-              "the object's and the thread's reference and starts when the worker already holds its own), and the timed "
+              "handover_fenced_at_O3, thread_end_order). Copies of a Thread (copy construction, assignment, arrays) share one counted "
+              "state: for any number of copies dropped in any order around the end of the thread the state is never used after its "
+              "release, is released exactly once with the last reference, and finished() through any live copy is the worker's flag "
+              "(thread_copies_safe).")
+LEVEL_NOTE = ("Thread copies and assignment share a reference-counted State_: modelled in `Copies` (any number of copies, any drop order: "
+              "thread_copies_safe; the driver takes finished() of the kinds cpy, cpd, cpj, sst from it), at the level of the count and the "
+              "flag — which C++ statements copy the state pointer is the reading of Thread.h that produced the model, checked by K at "
+              "free-running schedules only. No model, K only: the timed "
               "Condition::wait(timeout) (`condt`; the condition theorems are about the untimed wait). fenced_handover_never_stale is a "
               "statement about what a barrier means in the model (the store is enabled only after the loads); its content for the code is "
               "the regenerated instruction-order obligation, checked on two probe instantiations with register aliases of the argument "
